@@ -604,6 +604,8 @@ class LibMixin:
             return len(v.items)
         if isinstance(v, (str, bytes, tuple, frozenset, range)):
             return len(v)
+        if isinstance(v, Obj) and not isinstance(v, (ClassV, LibClass, FuncV, LibFn, EnumMemberV)):
+            self.limit(f"len() of {v!r} is not modelled", node)
         self.throw("TypeError", f"object of type {self.type_of(v)!r} has no len()", node)
 
     def lib_isinstance(self, a, kw, run, node):
